@@ -65,11 +65,14 @@ def int_type_bounds(old):
     return 0, None
 
 
-def widen(I, st, old, cid, disabled, checks):
+def widen(I, st, old, cid, disabled, checks, ty=None):
     """replace old by a fresh value constrained by the still-enabled candidate invariants.
     checks: appended (cid, fn(state_at_backedge, value_at_backedge)->bool)"""
+    ty = I.rt(ty) if ty is not None else None
     if isinstance(old, VInt):
-        lo, hi = int_type_bounds(old)
+        lo, hi = (None, None)
+        if isinstance(ty, str) and ty in INT_TYPES:
+            lo, hi = INT_TYPES[ty]
         X = Lin.atom(reg_atom(("v", ("w", fresh_id())), lo, hi))
         for name, mk in (("ge_entry", lambda x: x - old.lin), ("le_entry", lambda x: old.lin - x)):
             c = cid + (name,)
@@ -101,7 +104,9 @@ def widen(I, st, old, cid, disabled, checks):
                         sub.assume(vb.f)
                     except Infeasible:
                         return True
-                    if not sub.feasible():
+                    ats = set()
+                    I.formula_atoms(vb.f, ats)
+                    if ats and not sub.feasible(ats):
                         return True
                     return sub.holds(old.f)
                 checks.append((c, chk))
@@ -129,7 +134,7 @@ def widen(I, st, old, cid, disabled, checks):
                 checks.append((c, lambda sb, vb, fn=fn: isinstance(vb, VIter) and vb.kind == "slice" and fn(sb, vb.d["r"])))
             return VIter("slice", r=r)
         if old.kind == "stepby":
-            sv = widen(I, st, VInt(old.d["start"]), cid + ("start",), disabled, checks2 := [])
+            sv = widen(I, st, VInt(old.d["start"]), cid + ("start",), disabled, checks2 := [], "usize")
             for c, fn in checks2:
                 checks.append((c, lambda sb, vb, fn=fn: isinstance(vb, VIter) and vb.kind == "stepby" and fn(sb, VInt(vb.d["start"]))))
             c = cid + ("cong",)
@@ -149,7 +154,7 @@ def widen(I, st, old, cid, disabled, checks):
                 checks.append((c, chk))
             return VIter("stepby", start=sv.lin, end=old.d["end"], step=old.d["step"])
         if old.kind == "count":
-            nv = widen(I, st, VInt(old.d["n"]), cid + ("n",), disabled, checks2 := [])
+            nv = widen(I, st, VInt(old.d["n"]), cid + ("n",), disabled, checks2 := [], "usize")
             for c, fn in checks2:
                 checks.append((c, lambda sb, vb, fn=fn: isinstance(vb, VIter) and vb.kind == "count" and fn(sb, VInt(vb.d["n"]))))
             return VIter("count", n=nv.lin, ety=old.d.get("ety"))
@@ -161,10 +166,27 @@ def widen(I, st, old, cid, disabled, checks):
             d["inner"] = inner
             for fld in ("i", "n"):
                 if fld in d and isinstance(d[fld], Lin):
-                    nv = widen(I, st, VInt(d[fld]), cid + (fld,), disabled, checks3 := [])
+                    nv = widen(I, st, VInt(d[fld]), cid + (fld,), disabled, checks3 := [], "usize")
                     for c, fn in checks3:
                         checks.append((c, lambda sb, vb, fn=fn, kind=old.kind, fld=fld: isinstance(vb, VIter) and vb.kind == kind and isinstance(vb.d.get(fld), Lin) and fn(sb, VInt(vb.d[fld]))))
                     d[fld] = nv.lin
+            # relational candidate for take(enumerate(..)): index + remaining stays constant
+            if old.kind == "take" and isinstance(old.d.get("n"), Lin) and isinstance(old.d["inner"], VIter) \
+                    and old.d["inner"].kind == "enumerate" and isinstance(d["inner"], VIter):
+                c = cid + ("take_enum_sum",)
+                if c not in disabled:
+                    tot0 = old.d["n"] + old.d["inner"].d["i"]
+                    tot = d["n"] + d["inner"].d["i"]
+                    st.add_ge0(tot - tot0)
+                    st.add_ge0(tot0 - tot)
+
+                    def chk(sb, vb, tot0=tot0):
+                        if not (isinstance(vb, VIter) and vb.kind == "take" and isinstance(vb.d.get("n"), Lin)
+                                and isinstance(vb.d["inner"], VIter) and vb.d["inner"].kind == "enumerate"):
+                            return False
+                        t = vb.d["n"] + vb.d["inner"].d["i"]
+                        return sb.entails(t - tot0) and sb.entails(tot0 - t)
+                    checks.append((c, chk))
             return VIter(old.kind, **d)
         return VIter("unknown")
     if isinstance(old, VVec):
@@ -194,9 +216,20 @@ def widen(I, st, old, cid, disabled, checks):
             checks.append((c, lambda sb, vb: isinstance(vb, VAdt) and vb.variant == old.variant and vb.fields is not None
                            and len(vb.fields) == len(old.fields)))
             fs = []
+            aty = old.ty if old.ty is not None else (ty if isinstance(ty, dict) and ty.get("k") == "adt" else None)
+            ftys = None
+            if aty is not None:
+                try:
+                    ftys = I.field_tys(aty, old.variant)
+                except Exception:
+                    ftys = None
+            if ftys is None:
+                adt = I.F.adts.get(old.path)
+                if adt is not None and not adt["generics"]:
+                    ftys = [f["ty"] for f in adt["variants"][old.variant]["fields"]]
             for i, f in enumerate(old.fields):
                 sub = []
-                fs.append(widen(I, st, f, cid + (i,), disabled, sub))
+                fs.append(widen(I, st, f, cid + (i,), disabled, sub, ftys[i] if ftys and i < len(ftys) else None))
                 for cc, fn in sub:
                     checks.append((cc, lambda sb, vb, fn=fn, i=i: isinstance(vb, VAdt) and vb.fields is not None and i < len(vb.fields) and fn(sb, vb.fields[i])))
             return VAdt(old.path, old.variant, tuple(fs), old.key, old.ty)
@@ -208,9 +241,10 @@ def widen(I, st, old, cid, disabled, checks):
         return I.havoc_value(st, old)
     if isinstance(old, (VTuple, VClosure)):
         fs = []
+        tys = ty["of"] if isinstance(ty, dict) and ty.get("k") == "tuple" else None
         for i, f in enumerate(old.fields):
             sub = []
-            fs.append(widen(I, st, f, cid + (i,), disabled, sub))
+            fs.append(widen(I, st, f, cid + (i,), disabled, sub, tys[i] if tys and i < len(tys) else None))
             for cc, fn in sub:
                 checks.append((cc, lambda sb, vb, fn=fn, i=i: isinstance(vb, (VTuple, VClosure)) and i < len(vb.fields) and fn(sb, vb.fields[i])))
         return VTuple(fs) if isinstance(old, VTuple) else VClosure(old.path, fs)
@@ -222,7 +256,7 @@ def widen(I, st, old, cid, disabled, checks):
                 es = []
                 for i, f in enumerate(old.elems):
                     sub = []
-                    es.append(widen(I, st, f, cid + (i,), disabled, sub))
+                    es.append(widen(I, st, f, cid + (i,), disabled, sub, old.ety))
                     for cc, fn in sub:
                         checks.append((cc, lambda sb, vb, fn=fn, i=i: isinstance(vb, VArray) and vb.elems is not None and i < len(vb.elems) and fn(sb, vb.elems[i])))
                 return VArray(tuple(es), old.n, old.key, old.ety)
@@ -234,6 +268,42 @@ def widen(I, st, old, cid, disabled, checks):
             return old
         return VOpaque(None, ("w", fresh_id()))
     return VOpaque(None, ("w", fresh_id()))
+
+
+def place_type(I, st, p):
+    """declared type of place p = (fid, local, projs) when derivable"""
+    fid, local, projs = p
+    if fid == 0:
+        t = None
+    else:
+        f = I.frame_by_id(st, fid)
+        if f is None or not isinstance(local, int) or local >= len(f.body["locals"]):
+            return None
+        t = I.rt(f.body["locals"][local][0])
+    for pr in projs:
+        if pr[0] == "f":
+            if pr[2] is not None:
+                t = I.rt(pr[2])
+                continue
+            if isinstance(t, dict) and t.get("k") == "adt":
+                try:
+                    fts = I.field_tys(t, 0)
+                    t = I.rt(fts[pr[1]])
+                    continue
+                except Exception:
+                    return None
+            if isinstance(t, dict) and t.get("k") == "tuple":
+                t = I.rt(t["of"][pr[1]])
+                continue
+            return None
+        if pr[0] == "dc":
+            return None
+        if pr[0] in ("idx", "cidx"):
+            if isinstance(t, dict) and t.get("k") in ("array", "slice"):
+                t = I.rt(t["of"])
+                continue
+            return None
+    return t
 
 
 def modified_places(I, st, fr, blocks):
@@ -338,7 +408,7 @@ def analyze_loop(I, st, fr, info):
         for p in places:
             if p in widened:
                 ch = []
-                nv = widen(I, head, entry_vals[p], (p,), disabled, ch)
+                nv = widen(I, head, entry_vals[p], (p,), disabled, ch, place_type(I, head, p))
                 I.store(head, ("place",) + p, nv)
                 checks[p] = ch
         if not head.feasible():
